@@ -264,7 +264,7 @@ Definition xlsb_part2 (c : xlsb_choice) (wb : workbook Ptg.expr) : bytes :=
   brecs (bc_junk2 c)
   ++ (match bc_xtis c with
       | [] => []
-      | xs => brec 353 [] ++ brec 357 []
+      | xs => brec 353 [] ++ brecs (link_recs (bc_links c))
               ++ brec 362 (le32 (len xs) ++ flat_map xti_bytes xs) ++ brec 354 []
       end)
   ++ flat_map (fun nh => brecs (bc_junk2 c) ++ brec 39 (name_body (fst nh) (snd nh)))
@@ -295,6 +295,7 @@ Proof.
   apply andb_true_iff in Hl. destruct Hl as [Hl Hwf].
   apply andb_true_iff in Hl. destruct Hl as [Hl Hhdr].
   apply andb_true_iff in Hl. destruct Hl as [Hl Hnx].
+  apply andb_true_iff in Hl. destruct Hl as [Hl Hlk].
   apply andb_true_iff in Hl. destruct Hl as [Hl Hxt].
   apply andb_true_iff in Hl. destruct Hl as [Hl Hrest].
   apply andb_true_iff in Hl. destruct Hl as [Hl Hhi].
@@ -402,7 +403,7 @@ Qed.
 
 Lemma loop2_end : forall f e tail sheets ext names, is_end_type e = true ->
   (length (enc_type e ++ tail) <= f)%nat ->
-  xlsb_loop2 show_f64 f (enc_type e ++ tail) sheets ext names = Ok names.
+  xlsb_loop2 show_f64 f (enc_type e ++ tail) sheets ext names = decode_names show_f64 ext names.
 Proof.
   intros f e tail sheets ext names He Hf.
   destruct (end_type_facts e He) as [H1 [H2 H3]].
@@ -457,24 +458,34 @@ Proof.
     apply IH. rewrite len_cons in Hi. lia.
 Qed.
 
-Lemma xti_names_enc : forall sheets (xs : list (N * N * N)),
-  forallb (xti_legal (len sheets)) xs = true ->
+Lemma xti_names_enc : forall links sheets (xs : list (N * N * N)),
+  forallb (xti_legal links (len sheets)) xs = true ->
   map_o (xti_name sheets) (map xti_bytes xs) = Ok (spec_ext sheets xs).
 Proof.
-  intros sheets. induction xs as [|x xs IH]; intros H; [reflexivity|].
-  cbn in H. apply andb_true_iff in H. destruct H as [H1 H2].
+  intros links sheets. induction xs as [|x xs IH]; intros H; [reflexivity|].
+  cbn [forallb] in H. apply andb_true_iff in H. destruct H as [H1 H2].
   cbn [map map_o spec_ext]. rewrite (IH H2).
   destruct x as [[a b] c]. unfold xti_legal in H1. cbn [fst snd] in *.
+  apply andb_true_iff in H1. destruct H1 as [H1 _].
   apply andb_true_iff in H1. destruct H1 as [H1 Hc].
+  apply andb_true_iff in H1. destruct H1 as [H1 Hcs].
   apply andb_true_iff in H1. destruct H1 as [H1 Hb2].
   apply andb_true_iff in H1. destruct H1 as [Ha Hb].
   unfold xti_name, xti_bytes. cbn [fst snd].
   change (drop 4 (le32 a ++ le32 b ++ le32 c)) with (le32 b ++ le32 c).
   rewrite read_i32_le32 by lia. cbn [obind].
+  change (drop 8 (le32 a ++ le32 b ++ le32 c)) with (le32 c ++ []).
+  rewrite read_i32_le32 by lia. cbn [obind].
   replace (Z.of_N b =? -2)%Z with false by lia. replace (Z.of_N b =? -1)%Z with false by lia.
-  replace (0 <=? Z.of_N b)%Z with true by lia. rewrite N2Z.id.
+  replace (0 <=? Z.of_N b)%Z with true by lia. replace (0 <=? Z.of_N c)%Z with true by lia. rewrite !N2Z.id.
   destruct (nthN_some _ sheets b ltac:(lia)) as [nm Hn]. rewrite Hn.
-  rewrite Ptg_proofs.quote_sheet_name_spec. reflexivity.
+  destruct (nthN_some _ sheets c ltac:(lia)) as [nl Hl]. rewrite Hl.
+  rewrite andb_true_r.
+  destruct (b =? c) eqn:E.
+  - apply N.eqb_eq in E. subst c. rewrite Z.eqb_refl. cbn [negb].
+    rewrite Ptg_proofs.quote_sheet_name_spec. reflexivity.
+  - apply N.eqb_neq in E. replace (Z.of_N c =? Z.of_N b)%Z with false by lia. cbn [negb].
+    rewrite Ptg_proofs.quote_sheet_span_spec. reflexivity.
 Qed.
 
 Lemma len_xti_blocks : forall xs : list (N * N * N), len (flat_map xti_bytes xs) = 12 * len xs.
@@ -491,15 +502,15 @@ Qed.
 Lemma len_map : forall (A B : Type) (f : A -> B) l, len (map f l) = len l.
 Proof. intros. unfold len. rewrite map_length. reflexivity. Qed.
 
-Lemma loop2_extern : forall f (xs : list (N * N * N)) rest sheets ext names,
-  forallb (xti_legal (len sheets)) xs = true -> len xs < 1000000 ->
+Lemma loop2_extern : forall links f (xs : list (N * N * N)) rest sheets ext names,
+  forallb (xti_legal links (len sheets)) xs = true -> len xs < 1000000 ->
   (length (brec 362 (le32 (len xs) ++ flat_map xti_bytes xs) ++ rest) <= f)%nat ->
   exists f0, (length rest <= f0)%nat /\
     xlsb_loop2 show_f64 f (brec 362 (le32 (len xs) ++ flat_map xti_bytes xs) ++ rest)
                sheets ext names =
     xlsb_loop2 show_f64 f0 rest sheets (spec_ext sheets xs) names.
 Proof.
-  intros f xs rest sheets ext names Hx Hn Hf.
+  intros links f xs rest sheets ext names Hx Hn Hf.
   destruct (fuel_S _ _ (Nat.le_trans _ _ _ (brec_length _ _ rest) Hf)) as [f0 [-> Hf0]].
   exists f0. split; [exact Hf0|].
   assert (Hlen : len (le32 (len xs) ++ flat_map xti_bytes xs) = 4 + 12 * len xs)
@@ -514,19 +525,18 @@ Proof.
   unfold d. rewrite read_u32_le32 by lia. cbn [obind].
   change (drop 4 (le32 (len xs) ++ flat_map xti_bytes xs)) with (flat_map xti_bytes xs).
   rewrite chunks_exact_blocks, (firstN_all _ _ _ (eq_sym (len_map _ _ xti_bytes xs))).
-  rewrite (xti_names_enc sheets xs Hx). reflexivity.
+  rewrite (xti_names_enc links sheets xs Hx). reflexivity.
 Qed.
 
-Definition name_env (ext : list str) (names : list (str * str)) : Ptg.xlsb_env :=
-  Ptg.Build_xlsb_env ext (map fst names) None.
+Definition name_env (ext : list str) (all : list str) : Ptg.xlsb_env :=
+  Ptg.Build_xlsb_env ext all None.
 
-Lemma brt_name_enc : forall n e h ext names,
-  Ptg.wf_xlsb (name_env ext names) e = true -> name_ok n = true ->
+Lemma brt_name_enc : forall n e h,
+  name_ok n = true ->
   Utf16.utf16_len n < 65536 -> len (Ptg.encode_xlsb e) < 268435456 -> hdr_legal h = true ->
-  brt_name show_f64 (name_body (n, e) h) ext names =
-  Ok (n, Ptg.render_xlsb show_f64 (name_env ext names) e).
+  brt_name (name_body (n, e) h) = Ok (n, Ptg.encode_xlsb e).
 Proof.
-  intros n e h ext names Hwf Hn Hl Hr Hh.
+  intros n e h Hn Hl Hr Hh.
   destruct (name_ok_parts n Hn) as [Sn _].
   destruct h as [[fl key] itab]. unfold hdr_legal in Hh. cbn [fst snd] in Hh.
   apply andb_true_iff in Hh. destruct Hh as [Hh H3]. apply andb_true_iff in Hh. destruct Hh as [H1 H2].
@@ -564,8 +574,7 @@ Proof.
        replace (13 + (4 + L * 2)) with (len (A9 ++ Utf16.enc_wide n ++ le32 (len rgce)))
          by (rewrite !len_app, HA9, len_enc_wide, len_le32; fold L; lia).
        rewrite drop_len_app, take_len_app. reflexivity. }
-  unfold rgce. fold (name_env ext names).
-  rewrite (Ptg_proofs.rpn_correct_xlsb show_f64 (name_env ext names) e Hwf). reflexivity.
+  reflexivity.
 Qed.
 
 Lemma len_name_body : forall n e h, Utf16.utf16_len n < 65536 ->
@@ -575,16 +584,17 @@ Proof.
   rewrite !len_app, !len_le32, len_enc_wide. change (len [key]) with 1. lia.
 Qed.
 
+Definition raw_name (ne : str * Ptg.expr) : str * bytes := (fst ne, Ptg.encode_xlsb (snd ne)).
+
 Lemma loop2_name_rec : forall f n e h rest sheets ext names,
-  Ptg.wf_xlsb (name_env ext names) e = true -> name_ok n = true ->
+  name_ok n = true ->
   Utf16.utf16_len n < 65536 -> len (Ptg.encode_xlsb e) < 268000000 -> hdr_legal h = true ->
   (length (brec 39 (name_body (n, e) h) ++ rest) <= f)%nat ->
   exists f0, (length rest <= f0)%nat /\
     xlsb_loop2 show_f64 f (brec 39 (name_body (n, e) h) ++ rest) sheets ext names =
-    xlsb_loop2 show_f64 f0 rest sheets ext
-               (names ++ [(n, Ptg.render_xlsb show_f64 (name_env ext names) e)]).
+    xlsb_loop2 show_f64 f0 rest sheets ext (names ++ [(n, Ptg.encode_xlsb e)]).
 Proof.
-  intros f n e h rest sheets ext names Hwf Hn Hl Hr Hh Hf.
+  intros f n e h rest sheets ext names Hn Hl Hr Hh Hf.
   destruct (fuel_S _ _ (Nat.le_trans _ _ _ (brec_length _ _ rest) Hf)) as [f0 [-> Hf0]].
   exists f0. split; [exact Hf0|].
   set (d := name_body (n, e) h) in *.
@@ -593,41 +603,58 @@ Proof.
   rewrite (read_type_enc 39 _ ltac:(lia)). cbn [obind].
   change (39 =? 362) with false. change (39 =? 39) with true. cbn iota.
   rewrite (read_body_enc d rest Hd). cbn [obind]. unfold d.
-  rewrite (brt_name_enc n e h ext names Hwf Hn Hl ltac:(lia) Hh). reflexivity.
+  rewrite (brt_name_enc n e h Hn Hl ltac:(lia) Hh). reflexivity.
 Qed.
 
-Lemma loop2_names : forall j2 sheets ext l hdrs acc rest f,
+Lemma loop2_names : forall j2 sheets ext all l hdrs acc rest f,
   forallb junk2_ok j2 = true ->
   forallb2 (fun (_ : str * Ptg.expr) h => hdr_legal h) l hdrs = true ->
-  names_wf_xlsb ext (map fst acc) l = true ->
+  forallb (name_wf_in ext all) l = true ->
   (length (flat_map (fun nh => brecs j2 ++ brec 39 (name_body (fst nh) (snd nh)))
                     (combine l hdrs) ++ rest) <= f)%nat ->
   exists f', (length rest <= f')%nat /\
     xlsb_loop2 show_f64 f
       (flat_map (fun nh => brecs j2 ++ brec 39 (name_body (fst nh) (snd nh))) (combine l hdrs)
        ++ rest) sheets ext acc =
-    xlsb_loop2 show_f64 f' rest sheets ext
-               (acc ++ spec_names_xlsb show_f64 ext (map fst acc) l).
+    xlsb_loop2 show_f64 f' rest sheets ext (acc ++ map raw_name l).
 Proof.
-  intros j2 sheets ext. induction l as [|[n e] l IH]; intros [|h hdrs] acc rest f Hj Hh Hwf Hf;
+  intros j2 sheets ext all. induction l as [|[n e] l IH]; intros [|h hdrs] acc rest f Hj Hh Hwf Hf;
     cbn in Hh; try discriminate.
-  - exists f. split; [exact Hf|]. cbn [combine flat_map app spec_names_xlsb]. rewrite app_nil_r.
+  - exists f. split; [exact Hf|]. cbn [combine flat_map app map]. rewrite app_nil_r.
     reflexivity.
   - apply andb_true_iff in Hh. destruct Hh as [Hh1 Hh2].
-    cbn [names_wf_xlsb] in Hwf.
+    cbn [forallb] in Hwf.
     apply andb_true_iff in Hwf. destruct Hwf as [Hwf Hrest].
+    unfold name_wf_in in Hwf. cbn [fst snd] in Hwf.
     apply andb_true_iff in Hwf. destruct Hwf as [Hwf Hlr].
     apply andb_true_iff in Hwf. destruct Hwf as [Hwf Hll].
     apply andb_true_iff in Hwf. destruct Hwf as [Hwe Hnn].
-    cbn [combine flat_map fst snd spec_names_xlsb] in *. rewrite <- !app_assoc in *.
+    cbn [combine flat_map fst snd map] in *. rewrite <- !app_assoc in *.
     destruct (loop2_junk j2 _ sheets ext acc f Hj Hf) as [f1 [Hf1 E1]]. rewrite E1.
-    destruct (loop2_name_rec f1 n e h _ sheets ext acc Hwe Hnn ltac:(lia) ltac:(lia) Hh1 Hf1)
+    destruct (loop2_name_rec f1 n e h _ sheets ext acc Hnn ltac:(lia) ltac:(lia) Hh1 Hf1)
       as [f2 [Hf2 E2]].
     rewrite E2.
-    destruct (IH hdrs (acc ++ [(n, Ptg.render_xlsb show_f64 (name_env ext acc) e)]) rest f2 Hj Hh2
-                ltac:(rewrite map_app; exact Hrest) Hf2) as [f3 [Hf3 E3]].
-    exists f3. split; [exact Hf3|]. rewrite E3. rewrite map_app. cbn [map fst].
+    destruct (IH hdrs (acc ++ [(n, Ptg.encode_xlsb e)]) rest f2 Hj Hh2 Hrest Hf2) as [f3 [Hf3 E3]].
+    exists f3. split; [exact Hf3|]. rewrite E3. unfold raw_name at 2. cbn [fst snd].
     rewrite <- app_assoc. reflexivity.
+Qed.
+
+(* the decoding at the end: every name against the whole table *)
+Lemma decode_names_enc : forall ext l,
+  names_wf_xlsb ext l = true ->
+  decode_names show_f64 ext (map raw_name l) = Ok (spec_names_xlsb show_f64 ext l).
+Proof.
+  intros ext l Hwf. unfold decode_names, spec_names_xlsb, names_wf_xlsb in *.
+  assert (Hfst : map fst (map raw_name l) = map fst l) by (rewrite map_map; reflexivity).
+  rewrite Hfst. generalize (map fst l) as all, Hwf. clear Hfst Hwf.
+  induction l as [|[n e] l IH]; intros all Hwf; [reflexivity|].
+  cbn [forallb] in Hwf. apply andb_true_iff in Hwf. destruct Hwf as [Hne Hrest].
+  unfold name_wf_in in Hne. cbn [fst snd] in Hne.
+  apply andb_true_iff in Hne. destruct Hne as [Hne _]. apply andb_true_iff in Hne. destruct Hne as [Hne _].
+  apply andb_true_iff in Hne. destruct Hne as [Hwe _].
+  cbn [map map_o raw_name fst snd spec_names_in].
+  rewrite (Ptg_proofs.rpn_correct_xlsb show_f64 _ e Hwe). cbn [obind].
+  rewrite (IH all Hrest). reflexivity.
 Qed.
 End Loop2.
 
@@ -646,7 +673,7 @@ Theorem xlsb_parse_encode : forall show_f64 c wb,
   xlsb_legal c wb = true ->
   xlsb_read_workbook show_f64 (rels_map (bc_rels c)) (xlsb_workbook_bin c wb) =
   Ok (mkParsed (wb_sheets wb) (xlsb_paths c wb)
-               (spec_names_xlsb show_f64 (spec_ext (map m_name (wb_sheets wb)) (bc_xtis c)) []
+               (spec_names_xlsb show_f64 (spec_ext (map m_name (wb_sheets wb)) (bc_xtis c))
                                 (wb_names wb))
                (wb_1904 wb)).
 Proof.
@@ -657,6 +684,7 @@ Proof.
   apply andb_true_iff in Hl. destruct Hl as [Hl Hwf].
   apply andb_true_iff in Hl. destruct Hl as [Hl Hhdr].
   apply andb_true_iff in Hl. destruct Hl as [Hl Hnx].
+  apply andb_true_iff in Hl. destruct Hl as [Hl Hlk].
   apply andb_true_iff in Hl. destruct Hl as [Hl Hxt].
   apply andb_true_iff in Hl. destruct Hl as [Hl Hrest].
   apply andb_true_iff in Hl. destruct Hl as [Hl Hhi].
@@ -664,24 +692,29 @@ Proof.
   apply andb_true_iff in Hl. destruct Hl as [J1 J2].
   rewrite (paths_names c wb (forallb2_length _ _ _ _ _ Hsheets)).
   set (sheets := map m_name (wb_sheets wb)) in *.
-  assert (Hxt' : forallb (xti_legal (len sheets)) (bc_xtis c) = true)
+  assert (Hxt' : forallb (xti_legal (map fst (bc_links c)) (len sheets)) (bc_xtis c) = true)
     by (unfold sheets; rewrite len_map; exact Hxt).
+  assert (JL : forallb junk2_ok (link_recs (bc_links c)) = true).
+  { clear - Hlk. induction (bc_links c) as [|[l b] t IH]; [reflexivity|].
+    cbn [forallb snd] in Hlk. apply andb_true_iff in Hlk. destruct Hlk as [Hb Ht].
+    cbn [link_recs map forallb]. fold (link_recs t). rewrite (IH Ht), andb_true_r.
+    unfold junk2_ok. cbn [fst snd]. rewrite Hb, andb_true_r. destruct l; reflexivity. }
   set (j2 := bc_junk2 c) in *.
   assert (Hgoal : forall f, (length (xlsb_part2 c wb) <= f)%nat ->
     xlsb_loop2 show_f64 f (xlsb_part2 c wb) sheets [] [] =
-    Ok (spec_names_xlsb show_f64 (spec_ext sheets (bc_xtis c)) [] (wb_names wb))).
+    Ok (spec_names_xlsb show_f64 (spec_ext sheets (bc_xtis c)) (wb_names wb))).
   { intros f Hf. unfold xlsb_part2 in *. fold j2 in Hf |- *.
     destruct (loop2_junk show_f64 j2 _ sheets [] [] f J2 Hf) as [f1 [Hf1 E1]]. rewrite E1.
     (* the externals *)
     assert (Hext : forall rest g, (length ((match bc_xtis c with
                       | [] => []
-                      | xs => brec 353 [] ++ brec 357 []
+                      | xs => brec 353 [] ++ brecs (link_recs (bc_links c))
                               ++ brec 362 (le32 (len xs) ++ flat_map xti_bytes xs) ++ brec 354 []
                       end) ++ rest) <= g)%nat ->
               exists g', (length rest <= g')%nat /\
                 xlsb_loop2 show_f64 g ((match bc_xtis c with
                       | [] => []
-                      | xs => brec 353 [] ++ brec 357 []
+                      | xs => brec 353 [] ++ brecs (link_recs (bc_links c))
                               ++ brec 362 (le32 (len xs) ++ flat_map xti_bytes xs) ++ brec 354 []
                       end) ++ rest) sheets [] [] =
                 xlsb_loop2 show_f64 g' rest sheets (spec_ext sheets (bc_xtis c)) []).
@@ -690,21 +723,20 @@ Proof.
       - rewrite <- !app_assoc in *.
         destruct (loop2_skip show_f64 g 353 [] _ sheets [] [] ltac:(lia) len_nil_small
                     eq_refl eq_refl eq_refl Hg) as [g1 [Hg1 G1]]. rewrite G1.
-        destruct (loop2_skip show_f64 g1 357 [] _ sheets [] [] ltac:(lia) len_nil_small
-                    eq_refl eq_refl eq_refl Hg1) as [g2 [Hg2 G2]]. rewrite G2.
-        destruct (loop2_extern show_f64 g2 (x :: xs) _ sheets [] [] Hxt' ltac:(lia) Hg2)
+        destruct (loop2_junk show_f64 (link_recs (bc_links c)) _ sheets [] [] g1 JL Hg1) as [g2 [Hg2 G2]]. rewrite G2.
+        destruct (loop2_extern show_f64 (map fst (bc_links c)) g2 (x :: xs) _ sheets [] [] Hxt' ltac:(lia) Hg2)
           as [g3 [Hg3 G3]]. rewrite G3.
         destruct (loop2_skip show_f64 g3 354 [] rest sheets (spec_ext sheets (x :: xs)) []
                     ltac:(lia) len_nil_small eq_refl eq_refl eq_refl Hg3) as [g4 [Hg4 G4]].
         rewrite G4. exists g4. split; [exact Hg4|reflexivity]. }
     destruct (Hext _ f1 Hf1) as [f2 [Hf2 E2]]. etransitivity; [apply E2|].
-    destruct (loop2_names show_f64 j2 sheets (spec_ext sheets (bc_xtis c)) (wb_names wb)
+    destruct (loop2_names show_f64 j2 sheets (spec_ext sheets (bc_xtis c)) (map fst (wb_names wb)) (wb_names wb)
                 (bc_name_hdr c) [] _ f2 J2 Hhdr Hwf Hf2) as [f3 [Hf3 E3]].
     rewrite E3. cbn [app map].
     destruct (loop2_junk show_f64 j2 _ sheets (spec_ext sheets (bc_xtis c))
-                (spec_names_xlsb show_f64 (spec_ext sheets (bc_xtis c)) [] (wb_names wb)) f3 J2 Hf3)
+                (map raw_name (wb_names wb)) f3 J2 Hf3)
       as [f4 [Hf4 E4]].
-    rewrite E4. apply loop2_end; assumption. }
+    rewrite E4. rewrite loop2_end by assumption. apply decode_names_enc. exact Hwf. }
   rewrite (Hgoal _ (Nat.le_succ_diag_r _)). reflexivity.
 Qed.
 
@@ -748,7 +780,7 @@ Theorem xlsb_open_encode : forall show_f64 c wb rjunk,
   xlsb_legal c wb = true -> forallb junk_ok_brels rjunk = true ->
   xlsb_open show_f64 (xlsb_rels_events rjunk (bc_rels c)) (xlsb_workbook_bin c wb) =
   Ok (mkParsed (wb_sheets wb) (xlsb_paths c wb)
-               (spec_names_xlsb show_f64 (spec_ext (map m_name (wb_sheets wb)) (bc_xtis c)) []
+               (spec_names_xlsb show_f64 (spec_ext (map m_name (wb_sheets wb)) (bc_xtis c))
                                 (wb_names wb))
                (wb_1904 wb)).
 Proof.
@@ -789,18 +821,25 @@ Qed.
 Definition ex_xlsb_wb : workbook Ptg.expr :=
   mkWb [mkMeta [97; 233] Hidden MacroSheet; mkMeta [128512; 20013] VeryHidden WorkSheet;
         mkMeta [98] Visible ChartSheet]
-       [([110], Ptg.ERef3d Ptg.CRef 1 (Ptg.Build_cref 0 1 false true));
-        ([109], Ptg.EBin 3 (Ptg.EName Ptg.CVal 1) (Ptg.EInt 5))] true.
+       [(* n = m*2: the name it uses is stored AFTER it (forward reference, as in files written by Excel) *)
+        ([110], Ptg.EBin 5 (Ptg.EName Ptg.CVal 2) (Ptg.EInt 2));
+        ([109], Ptg.ERef3d Ptg.CRef 1 (Ptg.Build_cref 0 1 false true))] true.
 Definition ex_xlsb_c : xlsb_choice :=
   (* parts: xl/worksheets/1 is the MACRO sheet, xl/s.bin the worksheet, xl/d/c the chart sheet *)
   mkBc [([98], ([115; 46; 98; 105; 110], t_ws_strict)); ([99], ([100; 47; 99], t_cs));
         ([120], ([116], ns_rel)); ([97], (d_worksheets ++ SLASH :: [49], t_xlim))]
        [mkBs [97] (d_worksheets ++ SLASH :: [49]) 1 true; mkBs [98] [115; 46; 98; 105; 110] 7 true;
         mkBs [99] [100; 47; 99] 3 false]
-       [(128, [1; 2; 3])] [(3000, [9])] false 3 [0; 0; 0] [(0, 1, 1); (0, 0, 0)]
+       [(128, [1; 2; 3])] [(3000, [9])] false 3 [0; 0; 0]
+       (* the supporting links: the add-in functions, another workbook, this workbook — the XTIs of the
+          workbook's own sheets carry link index 2 *)
+       [(Ptg.SupAddin, []); (Ptg.SupExt [[68]], [4; 0; 0; 0; 114; 0; 73; 0; 100; 0; 49; 0]); (Ptg.SupSelf, [])]
+       [(2, 1, 1); (2, 0, 0)]
        [(0, 0, 4294967295); (1, 65, 0)] 157 [2; 0; 0; 132; 1; 0].
 Lemma xlsb_nonvacuous :
   xlsb_legal ex_xlsb_c ex_xlsb_wb = true /\
   map fst (spec_names_xlsb (fun _ => []) (spec_ext (map m_name (wb_sheets ex_xlsb_wb)) (bc_xtis ex_xlsb_c))
-                           [] (wb_names ex_xlsb_wb)) = [[110]; [109]].
+                           (wb_names ex_xlsb_wb)) = [[110]; [109]] /\
+  nth_error (spec_names_xlsb (fun _ => []) (spec_ext (map m_name (wb_sheets ex_xlsb_wb)) (bc_xtis ex_xlsb_c))
+                             (wb_names ex_xlsb_wb)) 0 = Some ([110], [109; 42; 50]).
 Proof. vm_compute. repeat split. Qed.
